@@ -147,3 +147,22 @@ Example C01_demo :
   get false n (APtr (Some v)) ["P"; "A"] = Ret None None /\
   get false n (APtr (Some v)) ["F"; "x!"] = Ret None (Some EParse).
 Proof. vm_compute. repeat split; reflexivity. Qed.
+
+(* ---- tie to the source, re-checked on every run: the conversions of path segments are the library's own snippets.
+   Gen/SourceFacts.v is regenerated from /repo by harness/cmd/srcfacts before the build (lib/srcfacts.py). *)
+From Verif Require Snippets SourceFacts SnippetTable.
+
+Theorem C01_snippet_table_is_the_source : Snippets.table_matches SourceFacts.snippet_facts = true.
+Proof. exact SnippetTable.table_is_source. Qed.
+Print Assumptions C01_snippet_table_is_the_source.
+
+Theorem C01_key_conversion_is_the_table : forall kn k seg,
+  node_skind kn = Some k -> k <> SByte ->
+  conv_key kn seg = Snippets.run_conv (Snippets.conv_of_skind k) k seg.
+Proof. exact SnippetTable.conv_key_table. Qed.
+Print Assumptions C01_key_conversion_is_the_table.
+
+Theorem C01_index_conversion_is_the_table : forall seg,
+  option_map VInt (conv_index seg) = Snippets.run_conv (Snippets.conv_of_skind (SInt KInt)) (SInt KInt) seg.
+Proof. exact SnippetTable.conv_index_table. Qed.
+Print Assumptions C01_index_conversion_is_the_table.
